@@ -17,7 +17,7 @@ def check(pid):
 
 ALL_FIELDS = ["init", "len", "empty", "cap", "avail", "full", "kind", "fifo", "idx", "front",
               "back", "bits", "ronly", "paren", "padded", "cannest", "nesting", "err", "canmtx",
-              "id", "cat", "delim", "sym", "enc", "isenc", "elems", "integ", "locked", "valid", "strsrc", "eqsrc", "umsrc", "loglevels"]
+              "id", "cat", "delim", "sym", "enc", "isenc", "elems", "integ", "locked", "valid", "strsrc", "eqsrc", "umsrc", "loglevels", "aux", "logger"]
 
 SM_DEFAULT = dict(Vals=["nil", "a", "b"], MaxLen=3, Caps=[0], Kinds=["AND"], InitOpts=[[]], InitMtx=[False],
                   Fams=["list"], OptFlags=[], PushLens=[1, 2], DstCaps=[0], DstOps=["push", "pop"], IdxMode="existing",
@@ -637,7 +637,7 @@ def c15(work, v, tier):
                     "with nil elements; both handles observed in full after every step")
 
 
-C18_FIELDS = ["init", "bits", "ronly", "paren", "padded", "cannest", "fifo", "id", "cat", "delim", "sym", "enc", "isenc", "elems", "len", "kind", "integ", "loglevels"]
+C18_FIELDS = ["init", "bits", "ronly", "paren", "padded", "cannest", "fifo", "id", "cat", "delim", "sym", "enc", "isenc", "elems", "len", "kind", "integ", "loglevels", "aux", "logger"]
 
 
 @check("C18")
@@ -651,14 +651,16 @@ def c18(work, v, tier):
                                          depth=2, walks=200 if q else 2000)))
     tables.append(("cond-flags", dict(machine="cond", KwArgs=["k"], OpArgs=["Eq"], ExArgs=["s:v"], CFams=["opts", "settings", "set"],
                                       depth=3 if q else 4, walks=300 if q else 3000)))
+    tables.append(("auxlog", dict(Kinds=["AND", "BASIC"], MaxLen=0, Fams=["aux", "opts"], OptFlags=["ronly"], depth=2 if q else 3, walks=200 if q else 2000, wlen=40)))
     tables.append(("loglevel", dict(Kinds=["AND"], MaxLen=0, Fams=["loglevel", "opts"], OptFlags=["ronly"], depth=2 if q else 3, walks=300 if q else 3000, wlen=40)))
-    traces = [("rand", dict(traces=200 if q else 2000, len=80, fams=["opts", "settings", "list", "loglevel"], nvals=4))]
+    traces = [("rand", dict(traces=200 if q else 2000, len=80, fams=["opts", "settings", "list", "loglevel", "aux"], nvals=4))]
     return sm_check(work, v, "C18", tier, tables, traces, C18_FIELDS,
                     ["StepProps: OptIndependence (a switch changes exactly its own flag, nothing else; on / off / toggle semantics)",
                      "FifoLatch (temporal action property)"],
                     "options: exhaustive sequences of {set, clear, toggle} x 8 options to depth 3 (quick) / 4 (thorough) with the raw option bits "
                     "read through the verif hook and the getters compared; ID, category, delimiter (LIST only), symbol (non-LIST only) and "
                     "encapsulation pairs (duplicate characters refused) in a second instance; random longer mixed sequences validated as traces. "
+                    "Auxiliary map (none / fresh / the caller's map by reference) and logger selection (names in any case, 0/1/2, *log.Logger, junk) in instance 'auxlog'. "
                     "Log levels: SetLogLevel / UnsetLogLevel with names (any case), LogLevel constants and raw integers, the none / all shortcuts, "
                     "multi-argument calls; LogLevels() text compared (instance 'loglevel' + random traces over all 16 bits). "
                     "The Condition's four switches (parenthetical, no-padding, no-nesting, read-only), ID, category and encapsulation in a CondMC instance "
